@@ -48,7 +48,7 @@ pub fn serialize_salted(events: &[Value], variant: usize, salt: usize) -> Doc {
     let mut tok = |p: &str, tokens: &mut Vec<String>| {
         n += 1;
         let t = match salt {
-            0 => format!("{}{}", p, n),
+            0 => format!("{}{:03}", p, n),
             1 => format!("other {} &lt;{}&gt; value", p, n * 7),
             _ => "  ".to_string(),
         };
